@@ -637,8 +637,43 @@ func streamBuilder(c *Ctx) {
 		c.squareCase(sc)
 	}
 	c.manyBlobCases()
+	c.hugeTxCases()
 	if c.thorough {
 		c.exhaustiveSmallScope()
+	}
+}
+
+// hugeTxCases: transactions at the sizes where the width of the varint length prefix changes for the last
+// time within reach (2^20 .. 2^21: three and four byte prefixes), sized so that the unit ends EXACTLY on a
+// compact share boundary (a one-byte error in any size computation then moves a share), alone and followed by
+// a blob transaction; maxSquareSize 128.
+func (c *Ctx) hugeTxCases() {
+	pool := c.userNamespaces(1)
+	bases := []int{1 << 20}
+	if c.thorough {
+		bases = []int{1 << 20, 1<<21 - 4000, 1 << 21, 1<<21 + 12345}
+	} else if c.rng.Bool() {
+		bases = []int{1 << 21}
+	}
+	for _, base := range bases {
+		L := base
+		for (L+uvarintLen(L)-474)%478 != 0 {
+			L++
+		}
+		for variant := 0; variant < 2; variant++ {
+			sc := sqCase{max: 128, thr: 64}
+			sc.txs = append(sc.txs, genTx{raw: c.normalTx(L)})
+			sc.desc = fmt.Sprintf("max=128 thr=64 t%d(exact-fill)", L)
+			if variant == 1 {
+				one := []blobSpec{c.randBlob(pool[0], 600, false)}
+				raw2 := c.makeBlobTx(one, 10)
+				btx2, _, _ := tx.UnmarshalBlobTx(raw2)
+				sc.txs = append(sc.txs, genTx{raw: raw2, isBlob: true, inner: btx2.Tx, blobs: one})
+				sc.desc += " b[v0:600]"
+			}
+			c.squareCase(sc)
+			c.dist("huge-tx")
+		}
 	}
 }
 
